@@ -216,6 +216,17 @@ def handle : List String → String
       if !distinct descs then "BAD duplicate descriptor"
       else if !(layout.all (·.wfB)) || !sortedB layout || anyPairIntersect layout then "BAD layout"
       else runRoute descs layout ops ⟨Cache.empty, [], []⟩
+  | ["sk", t, k, impl, tail, shared, tableKept] =>
+    -- createRegionSearchKey on a table name with spare capacity behind it
+    match fromHex t, fromHex k, fromHex impl with
+    | some t, some k, some impl =>
+      if tail ≠ "tail=0" then s!"SPEC key=search-key-overwrites-callers-buffer {tail} bytes behind the table name changed"
+      else if shared ≠ "shared=0" then "SPEC key=search-keys-share-memory a search key changed when the next one was built"
+      else if tableKept ≠ "table=true" then "SPEC key=search-key-overwrites-callers-buffer the table name itself changed"
+      else match searchKeyO t k with
+        | .ok m => if m == impl then "OK tags=sk" else s!"DIFF search key model={toHex m} impl={toHex impl}"
+        | _ => "DIFF search key: model faults"
+    | _, _, _ => "BAD sk args"
   | _ => "BAD command"
 
 end GV.Drive.C01
